@@ -161,6 +161,13 @@ def rand_spec(rng, maxW, maxH, nops, wide_ok=True, transf_ok=False):
     ops = []
     prev = None
     cfg = 0
+    # terminal-mode inputs of a render: the value of the mouse_support filter and the cursor
+    # shape (escape parameter 1..6; 0 = CursorShape._NEVER_CHANGE, kept for the whole sequence:
+    # switching from a shape to "never change" leaves the old shape on purpose)
+    mouse_mode = rng.random() < 0.35
+    shape_mode = rng.random() < 0.4
+    mouse = 0
+    shape = rng.randint(1, 6) if shape_mode else 0
     for i in range(nops):
         r = rng.random()
         if r < 0.08 and i > 0:
@@ -187,6 +194,12 @@ def rand_spec(rng, maxW, maxH, nops, wide_ok=True, transf_ok=False):
             prev = None
         done = rng.random() < (0.1 if i < nops - 1 else 0.3)
         scr = rand_screen(rng, W, H, wide_ok and W >= 2, prev)
+        if mouse_mode and rng.random() < 0.4:
+            mouse = 1 - mouse
+        if shape_mode and rng.random() < 0.3:
+            shape = rng.randint(1, 6)
+        scr["mouse"] = mouse
+        scr["shape"] = shape
         ops.append(("render", cfg, done, W, H, scr))
         prev = None if done else scr
     return {"fs": fs, "cfgs": cfgs, "ops": ops}
@@ -283,3 +296,34 @@ def neg_only_specs(rng):
             yield {"fs": fs, "cfgs": [(0, 8, 0)],
                    "ops": [("render", 0, False, W, 2, scr(x, 1)), ("render", 0, False, W, 2, scr(neg, 1)),
                            ("render", 0, False, W, 2, scr(neg, W - 1)), ("render", 0, False, W, 2, scr(neg, 1))]}
+
+
+def depth_change_specs(rng):
+    """ONE renderer, the colour depth (and only the depth) changing between renders of the same
+    or a slightly edited screen: the _last_color_depth invalidation must force a full repaint,
+    otherwise unchanged cells keep the escape codes of the old depth.  Also style-only and
+    transformation-only changes of the configuration."""
+    out = []
+    texts = [("a", "fg:#ff8800"), ("b", "bg:#0044ff"), ("x", "fg:ansired bg:#00ff00"), (" ", "bg:#884400"), ("Z", "fg:#123456 underline")]
+    for fs in (False, True):
+        for (d1, d2) in [(24, 8), (8, 24), (24, 4), (4, 1), (1, 24), (8, 4), (4, 8), (1, 8)]:
+            for kind in ("depth", "style", "transf"):
+                for edit in (0, 1):
+                    W = rng.choice([3, 5, 8])
+                    row = {x: rng.choice(texts) for x in range(rng.randint(1, W))}
+                    scr1 = {"height": 1, "show_cursor": True, "cursor": (rng.randrange(W), 0), "rows": {0: dict(row)}, "zwe": {}}
+                    row2 = dict(row)
+                    if edit:
+                        row2[rng.randrange(W)] = rng.choice(texts)
+                    scr2 = {"height": 1, "show_cursor": True, "cursor": (rng.randrange(W), 0), "rows": {0: row2}, "zwe": {}}
+                    sv = rng.randrange(3)
+                    if kind == "depth":
+                        cfgs = [(sv, d1, 0), (sv, d2, 0)]
+                    elif kind == "style":
+                        cfgs = [(sv, d1, 0), ((sv + 1) % 3, d1, 0)]
+                    else:
+                        cfgs = [(sv, d1, 0), (sv, d1, 1)]
+                    ops = [("render", 0, False, W, 2, scr1), ("render", 1, False, W, 2, scr2),
+                           ("render", 0, False, W, 2, scr1), ("render", 1, True, W, 2, scr2)]
+                    out.append({"fs": fs, "cfgs": cfgs, "ops": ops})
+    return out
